@@ -1008,6 +1008,20 @@ func resolveOrigin(c *Ctx, v ssa.Value, depth int) ssa.Value {
 				base := resolveOrigin(c, a.X, depth-d-1)
 				al, ok := base.(*ssa.Alloc)
 				if !ok {
+					// a struct made by a constructor: `s := newThing()` where every return of the constructor is a struct
+					// it allocated itself — the field's value is what the constructor stored there
+					if call, isCall := base.(*ssa.Call); isCall {
+						if sc := call.Call.StaticCallee(); sc != nil && sc.Blocks != nil && c.inRepo(sc) {
+							rets := returnsOf(sc)
+							if len(rets) == 1 && len(rets[0].Results) >= 1 {
+								if ral, isAl := rets[0].Results[0].(*ssa.Alloc); isAl {
+									al, ok = ral, true
+								}
+							}
+						}
+					}
+				}
+				if !ok {
 					return v
 				}
 				var stored ssa.Value
@@ -1034,4 +1048,70 @@ func resolveOrigin(c *Ctx, v ssa.Value, depth int) ssa.Value {
 		}
 	}
 	return v
+}
+
+// flatResults: the values a function can hand back as result idx, with phis expanded — a single-exit function assigns
+// its result variable on several paths and returns the merged value once.
+func flatResults(f *ssa.Function, idx int) []ssa.Value {
+	var out []ssa.Value
+	seen := map[ssa.Value]bool{}
+	var add func(v ssa.Value)
+	add = func(v ssa.Value) {
+		if v == nil || seen[v] {
+			return
+		}
+		seen[v] = true
+		if ph, ok := v.(*ssa.Phi); ok {
+			for _, e := range ph.Edges {
+				add(e)
+			}
+			return
+		}
+		out = append(out, v)
+	}
+	for _, ret := range returnsOf(f) {
+		if idx < len(ret.Results) {
+			add(retResult(ret, idx))
+		}
+	}
+	return out
+}
+
+// vret: one way a function hands back result idx. A single-exit function (`result = …` on several paths, one
+// `return result`) is expanded along the phi: Val is the value assigned on that path, At the last instruction of the
+// block the value comes out of (the Return itself for a plain `return v`), Facts what holds on that edge.
+type vret struct {
+	Val   ssa.Value
+	At    ssa.Instruction
+	Ret   *ssa.Return
+	Facts []condFact
+}
+
+func virtualReturns(f *ssa.Function, idx int) []vret {
+	var out []vret
+	for _, ret := range returnsOf(f) {
+		if idx >= len(ret.Results) {
+			continue
+		}
+		v := retResult(ret, idx)
+		seen := map[*ssa.Phi]bool{}
+		var expand func(v ssa.Value, at ssa.Instruction, facts []condFact)
+		expand = func(v ssa.Value, at ssa.Instruction, facts []condFact) {
+			ph, ok := v.(*ssa.Phi)
+			if !ok || seen[ph] {
+				out = append(out, vret{v, at, ret, facts})
+				return
+			}
+			seen[ph] = true
+			for i, e := range ph.Edges {
+				if i >= len(ph.Block().Preds) {
+					continue
+				}
+				pred := ph.Block().Preds[i]
+				expand(e, lastInstr(pred), edgeFacts(pred, ph.Block()))
+			}
+		}
+		expand(v, ret, condFacts(ret.Block()))
+	}
+	return out
 }
